@@ -364,3 +364,45 @@ def c05_api(ctx, prog):
                    not leaked and not mem, {"unreferenced_open": [str(x) for x in leaked], "live_allocations": [str(x) for x in mem],
                                             "returns": show(rv)}, nontrivial=True)
     ctx.floor("C05.O3", 30)
+
+
+def start_closure(ctx, prog, rule):
+    """every exit of reproc_start (all-paths run) leaves the handle in a shape of the invariant: not started with every field
+    invalid and no deadline (failure), running (returned 1), in-child (returned 0); no field keeps a closed descriptor number"""
+    from . import startpath as SP
+    res, F, I, obj = SP.reproc_start_run(ctx, prog)
+    seen = set()
+    for st, rv in res.exits:
+        sh1, why = A.classify(prog, I, st, obj)
+        want = "RUN" if rv == fs(1) else "CHILD" if rv == fs(0) else "NS"
+        key = (sh1, why, want)
+        if key in seen:
+            continue
+        seen.add(key)
+        ctx.ob(rule, "reproc_start [-> %s]" % (sh1 or "?"), "start leaves the handle not started with every field invalid (failure), running "
+               "(returned 1) or in-child (returned 0); no field is left holding the number of a descriptor that was already closed",
+               sh1 == want, {"why": why, "returns": show(rv)[:40], "handle": A.fields(st, obj)}, nontrivial=True)
+    ctx.floor(rule, 3)
+
+
+def exited_is_quiet(ctx, prog, rule, funcs=("reproc_wait", "reproc_terminate", "reproc_kill", "reproc_stop")):
+    """from the exited state nothing is signalled or reaped, and stop/wait return the cached status"""
+    for f in funcs:
+        res, F, I = run(ctx, prog, f)
+        evs = ev_of(res, ("kill", "waitpid"), "EXITED")
+        bad_ret = []
+        for st, rv in res.exits:
+            if shape_of(st.mon.get("shape")) != "EXITED":
+                continue
+            status = st.mem.get(A.fcell("status"))
+            if f in ("reproc_terminate", "reproc_kill"):
+                ok = rv == fs(0)
+            elif f == "reproc_wait":
+                ok = rv == status
+            else:
+                ok = rv == status or rv == fs(prog.const("REPROC_EINVAL")) or rv == fs(-1)
+            if not ok:
+                bad_ret.append(show(rv)[:40])
+        ctx.ob(rule, "%s [exited]" % f, "once the child has been reaped this call signals nothing, reaps nothing and returns the cached "
+               "status (terminate/kill: 0)", not evs and not bad_ret, {"calls": [site_of(e[1], e[2]) for e in evs][:3], "returns": sorted(set(bad_ret))[:3]},
+               nontrivial=True)
